@@ -48,7 +48,7 @@ def main(argv: list[str] | None = None) -> int:
             print(f"corpus replay: refactorings silent {c.get('refactorings_silent')}/{c.get('refactorings')} (alarms: {[r['name'] for r in c.get('refactoring_alarms', [])]}); "
                   f"seeded changes for {prop}: reported by this check {c.get('seeded_reported_by_this_check')}, not by this check {c.get('seeded_not_reported_by_this_check')}")
         return finish(ctx, t0=t0, explanation=mod.EXPLANATION, trusted=mod.TRUSTED, declined=mod.DECLINED,
-                      extra=getattr(mod, "extra_evidence", lambda c: {})(ctx), selftest=selftest, write=not a.no_write)
+                      extra={"technique": getattr(mod, "TECHNIQUE", "static analysis"), **getattr(mod, "extra_evidence", lambda c: {})(ctx)}, selftest=selftest, write=not a.no_write)
     except AnalysisError as e:
         print(f"ANALYSIS-ERROR property={prop} {e}")
         return 2
